@@ -20,16 +20,22 @@ L   == EnvInt("ACC_L", 2)
 Rich == EnvInt("ACC_RICH", 1) = 1       \* 0: reduced action alphabet (longer programs)
 WithRT == EnvInt("ACC_RT", 0) = 1       \* C20: serialization round trips as actions
 Big == EnvInt("ACC_BIG", 0) = 1         \* C20: f32 data above 2^24 (non-zero compensation terms)
+\* C20: constant samples of a value that is not exactly representable (code 50 + d = d / 10; for the
+\* harmonic flavour 10 / d): the accumulated sums round, the computed variance is rounding noise
+Frac == EnvInt("ACC_FRAC", 0)
+FV   == 50 + Frac
 
 Emit(c) == PrintT("CASE " \o ToJson(c))
 
-Vals == CASE Fl = "arith" /\ Big -> {1, 100}
+Vals == CASE Frac > 0 -> {FV}
+          [] Fl = "arith" /\ Big -> {1, 100}
           [] Fl = "arith" -> {1, 3}
           [] Fl = "geo"   -> {2, 3, 0}
           [] Fl = "harm"  -> {1, 3, -2}
           [] Fl = "unpaired" -> {1, 3}
           [] OTHER -> {1}
-Chunks == CASE Fl = "arith" /\ Big -> {<<100, 1, 1, 1>>, <<1, 100, 3>>}
+Chunks == CASE Frac > 0 -> {<<FV, FV>>, <<FV, FV, FV>>, <<FV, FV, FV, FV, FV, FV, FV>>}
+            [] Fl = "arith" /\ Big -> {<<100, 1, 1, 1>>, <<1, 100, 3>>}
             [] Fl = "arith" -> {<<>>, <<3, 1>>, <<1, 1, 3>>}
             [] Fl = "geo"   -> {<<>>, <<2, 3>>, <<3, -1, 2>>}
             [] Fl = "harm"  -> {<<>>, <<1, 2>>, <<2, -3, 1>>}
@@ -114,7 +120,7 @@ ProgNext ==
          /\ h' = Step(Fl, h, act)
          /\ prog' = Append(prog, act)
     /\ (Len(prog') = L) =>
-          Emit([op |-> "accum.program", fl |-> Fl, ty |-> Ty, nreg |-> NR, tol |-> (Fl = "geo"), steps |-> prog'])
+          Emit([op |-> "accum.program", fl |-> Fl, ty |-> Ty, nreg |-> NR, tol |-> (Fl = "geo"), nobatch |-> (Frac > 0), steps |-> prog'])
 Next == ProgNext \/ TreeNext
 Spec == Init /\ [][Next]_vars
 =============================================================================
